@@ -1,8 +1,8 @@
 #!/venv/bin/python
-"""Takes the rebased patches of /tmp/rebase2/batch*/<id>/ into seeded/<id>/ (original kept as patch.base-bafdefd.diff)."""
+"""Takes the rebased patches of /tmp/rebase3/batch*/<id>/ into seeded/<id>/ (original kept as patch.base-82c68cd.diff)."""
 import glob, json, os, shutil, sys
 n = 0
-for rep in sorted(glob.glob("/tmp/rebase2/batch*/REPORT.txt")):
+for rep in sorted(glob.glob("/tmp/rebase3/batch*/REPORT.txt")):
     for line in open(rep, errors="replace"):
         parts = line.split(None, 2)
         if len(parts) < 2:
@@ -15,13 +15,13 @@ for rep in sorted(glob.glob("/tmp/rebase2/batch*/REPORT.txt")):
         meta_p = os.path.join(dst, "meta.json")
         meta = json.load(open(meta_p))
         if verdict == "OK" and os.path.exists(os.path.join(src, "patch.rebased.diff")):
-            if not os.path.exists(os.path.join(dst, "patch.base-bafdefd.diff")):
-                shutil.copy(os.path.join(dst, "patch.diff"), os.path.join(dst, "patch.base-bafdefd.diff"))
+            if not os.path.exists(os.path.join(dst, "patch.base-82c68cd.diff")):
+                shutil.copy(os.path.join(dst, "patch.diff"), os.path.join(dst, "patch.base-82c68cd.diff"))
             shutil.copy(os.path.join(src, "patch.rebased.diff"), os.path.join(dst, "patch.diff"))
             for extra in ("demo.py", "demo.orig.py", "demo.base-af3caf2.py"):
                 if os.path.exists(os.path.join(src, extra)):
                     shutil.copy(os.path.join(src, extra), os.path.join(dst, extra))
-            meta["rebased"] = "onto the repaired tree (82c68cd) by a sub-agent: " + (parts[2].strip()[:600] if len(parts) > 2 else "")
+            meta["rebased"] = "onto the repaired tree (8e43c13) by a sub-agent: " + (parts[2].strip()[:600] if len(parts) > 2 else "")
             meta.pop("obsolete", None)
             n += 1
         elif verdict == "OBSOLETE":
